@@ -338,6 +338,43 @@ func H_C13_Bytes() {
 	verifReach("end")
 }
 
+// long values: the length prefix of a string / bytes field and of a nested message crosses the 1-byte / 2-byte
+// boundary (symbolic length <= 160, symbolic contents, no unrolling)
+func H_C13_Long() {
+	a, b := c13Tags()
+	s := nondetBytes("s", 160)
+	msg := protowire.AppendBytes(protowire.AppendTag(make([]byte, 0, 1024), protowire.Number(a), protowire.BytesType), s)
+	msg = c13AppendVarintField(msg, b, 5)
+	// a sub-message holding the same long value, so that its own length prefix is long too
+	sub := protowire.AppendBytes(protowire.AppendTag(make([]byte, 0, 512), 2, protowire.BytesType), s)
+	c := a + 2 // distinct from A and B for every choice of c13Tags
+	msg = protowire.AppendBytes(protowire.AppendTag(msg, protowire.Number(c), protowire.BytesType), sub)
+	def := NewDef(a, b)
+	def.NestedTag(c, 2)
+	def.Tags(-c)
+	r := c13Decode(msg, def)
+	got, err := r.BytesValue(a)
+	verifAssert(err == nil, "BytesValue succeeds on a long value")
+	verifAssertBytesEq(got, s, "BytesValue returns the whole value")
+	str, err := r.StringValue(a)
+	verifAssert(err == nil, "StringValue succeeds on a long value")
+	verifAssertBytesEq([]byte(str), s, "StringValue returns the whole value")
+	v, err := r.UInt64Value(b)
+	verifAssert2(err == nil, v == 5, "the field after a long value")
+	raw, err := r.BytesValue(-c)
+	verifAssert(err == nil, "raw access to a long sub-message")
+	verifAssertBytesEq(raw, sub, "raw bytes of the long sub-message")
+	fd, err := r.FieldData(c, 2)
+	verifAssert2(err == nil, fd != nil, "nested path into a long sub-message")
+	if err == nil && fd != nil {
+		nv, err := fd.BytesValue()
+		verifAssert(err == nil, "nested BytesValue")
+		verifAssertBytesEq(nv, s, "nested value")
+	}
+	verifAssert(r.Close() == nil, "Close")
+	verifReach("end")
+}
+
 // ---- packed runs: packed(A)=[v1,v2], g(B), packed(A)=[v3] ----
 
 func c13Packed(kind int) {
